@@ -52,6 +52,26 @@ def h_eval() -> Union[bool, str]:
     return True
 
 
+PAIR_POOL = ["$[?@.a == @.b]", "$[?@.a != @.b]", "$[?@.a <= @.b]", "$[?@[0] >= @[1]]", "$[?@.a == $[0].b]", "$[?value(@.*) == @.a]"]
+
+
+def h_eval_pair() -> Union[bool, str]:
+    """Both comparands are symbolic containers / scalars of any kind (members of the child under test)."""
+    q = P["query"]
+    c = _COMPILED.get(q)
+    if c is None:
+        c = _COMPILED[q] = jp.compile(q)
+    x = hcommon.sym_json("x", 1, 2, kind=P.get("xkind"), leaf_kind=2, strlen=1, names=["a", "b"])
+    y = hcommon.sym_json("y", 1, 2, kind=P.get("ykind"), leaf_kind=2, strlen=1, names=["a", "b"])
+    doc = [{"a": x, "b": y}, [x, y]]
+    try:
+        for n in c.find(doc):
+            n.path()
+    except JSONPathError as e:
+        str(e)
+    return True
+
+
 def nesting_seeds():
     out = []
     for n in (4, 16, 32):
@@ -81,16 +101,35 @@ NUMERIC_EDGE = [("$[?@.a==1e40", "]"), ("$[?@.a==1e30", "]"), ("$[?@.a==-1.5e30"
 SELFTESTS = []
 
 
+def c_sweep(**kw):
+    return holes.c_sweep(**kw)
+
+
+def selftest_derivations() -> int:
+    """Second oracle self-test: everything the derivation generator emits is valid for the reference recogniser."""
+    from vtools import derive
+    from vtools.ref.grammar import ref_verdict
+
+    qs = derive.corpus(2)
+    for q in qs:
+        assert ref_verdict(q) == "valid", q
+    assert len(qs) > 300
+    return len(qs)
+
+
 def obligations(tier: str):
     obls = []
+    for ch in range(4):
+        obls.append({"id": "derive.total.chunk%d" % ch, "kind": "concrete", "func": "c_sweep", "params": {"mode": "total", "depth": 2 if tier == "quick" else 3, "chunk": ch, "nchunks": 4}, "timeout": 600})
     for i, (pre, suf) in enumerate(HOT):
         obls.append(holes.obligation("hot%02d.k2" % i, pre, suf, 2, "total", 300))
         if tier == "thorough":
-            obls.append(holes.obligation("hot%02d.k3" % i, pre, suf, 3, "total", 2400))
+            if i % 3 == 1:
+                obls.append(holes.obligation("hot%02d.k3" % i, pre, suf, 3, "total", 1200))
     for j, (pre, suf) in enumerate(holes.hole_instances(SEEDS)):
         obls.append(holes.obligation("seed%04d.k1" % j, pre, suf, 1, "total", 120))
-        if tier == "thorough":
-            obls.append(holes.obligation("seed%04d.k2" % j, pre, suf, 2, "total", 900))
+        if tier == "thorough" and j % 2 == 0:
+            obls.append(holes.obligation("seed%04d.k2" % j, pre, suf, 2, "total", 600))
     for j, (pre, suf) in enumerate(ESCAPE_EDGE):
         obls.append(holes.obligation("esc%02d.k1" % j, pre, suf, 1, "total", 120))
         obls.append(holes.obligation("esc%02d.k2" % j, pre, suf, 2, "total", 300))
@@ -102,7 +141,12 @@ def obligations(tier: str):
     for j, (pre, suf) in enumerate(long_seeds()):
         obls.append(holes.obligation("long%02d.k1" % j, pre, suf, 1, "total", 600))
         if tier == "thorough":
-            obls.append(holes.obligation("long%02d.k2" % j, pre, suf, 2, "total", 1800))
+            if j < 3:
+                obls.append(holes.obligation("long%02d.k2" % j, pre, suf, 2, "total", 1200))
+    for qi, q in enumerate(PAIR_POOL):
+        for xk in (4, 5, 6):
+            for yk in (5, 6):
+                obls.append({"id": "pair%02d.%s.%s" % (qi, hcommon.KIND_NAMES[xk], hcommon.KIND_NAMES[yk]), "func": "h_eval_pair", "params": {"query": q, "xkind": xk, "ykind": yk}, "timeout": 300})
     for qi, q in enumerate(EVAL_POOL):
         for rk in range(7):
             obls.append({"id": "eval%02d.root-%s" % (qi, hcommon.KIND_NAMES[rk]), "func": "h_eval", "params": {"query": q, "rootkind": rk, "depth": 1 if tier == "quick" else 2, "width": 2}, "timeout": 200 if tier == "quick" else 900})
